@@ -17,21 +17,33 @@ def setup():
     _state.update(ns=ns, log=log)
 
 
+EXC_IDS = {"ValueError": 1, "TypeError": 2, "NameError": 3, "UnboundLocalError": 3, "KeyError": 4,
+           "Exception": 0}
+
+
 def canon(v):
-    from basilisp.lang import vector as vec
+    from basilisp.lang import vector as vec, runtime
     if v is None or v is True or v is False:
         return v
     if isinstance(v, int):
         return v
     if isinstance(v, vec.PersistentVector):
         return ["vec"] + [canon(x) for x in v]
+    if isinstance(v, runtime.Var):
+        name = v.name.name if hasattr(v.name, "name") else str(v.name)
+        from harness.props.c01_full import GLOBALS
+        return {"var": GLOBALS.index(name)} if name in GLOBALS else {"other": "Var"}
+    if isinstance(v, BaseException):
+        cls = EXC_IDS.get(type(v).__name__, 99)
+        return {"excv": cls, "payload": canon(v.args[0]) if v.args else None}
+    if callable(v):
+        return {"fn": 1}
     return {"other": type(v).__name__}
 
 
 def run(case):
     from basilisp.lang import compiler, reader, runtime, symbol as sym
     from basilisp.lang.compiler.exception import CompilerException
-    from basilisp.lang import map as lmap, keyword as kw
     ns, log = _state["ns"], _state["log"]
     del log[:]
     ind, inl, auto = case["opts"]
@@ -46,7 +58,9 @@ def run(case):
                 try:
                     res = compiler.compile_and_exec_form(form, ctx, ns)
                 except CompilerException as e:
-                    return {"exc": "compile", "msg": str(e)[:200]}
+                    return {"compile_error": str(e)[:300]}
+    except RecursionError:
+        return {"__timeout__": True}
     except Exception as e:
-        return {"exc": type(e).__name__, "trace": [canon(x) for x in log]}
+        return {"exc": EXC_IDS.get(type(e).__name__, 99), "cls": type(e).__name__, "trace": [canon(x) for x in log]}
     return {"val": canon(res), "trace": [canon(x) for x in log]}
